@@ -122,4 +122,10 @@ var specs = map[string]propSpec{
 		Rule: "rapid generates a schema (all 12 constraint kinds nested to depth 2, static / dependent / extension bodies, self-ref and non-self-ref bodies, OriginForTarget and Targets) and 1-2 files whose values are type-correct, reference-heavy expressions: traversals (attr, index with literal and traversal keys, legacy index, splats, relative traversals after calls) wrapped in operators, templates, directives, heredocs, conditionals, for expressions, index expressions, parentheses, collections and calls of known / unknown functions with too few / too many arguments, plus unknown attributes and blocks. Reference model: for every schema-known attribute of the effective schema, a place admits references when its constraint is any-expression (all traversals HCL's own Variables() finds there), reference (a plain traversal), or a list / set / tuple / map / object / one-of thereof (structural descent); self.* only where the body enables it; literal / keyword / type-declaration places and unknown attributes admit none. Collected LocalOrigins must equal the model as a set of (address, byte range) and be ordered by file and position; one PathOrigin per OriginForTarget attribute; one DirectOrigin per key attribute of a body with Targets. evaluations = expected origins. Non-trivial = at least two expression/placement classes present; distinct = SHA-1 of the case JSON.",
 		Assumptions: append([]string{"don't care (statement silent): traversals inside for expressions (iterator variables), arguments of unknown or parameterless functions, surplus arguments, object/map key expressions, dynamic blocks, undetermined dependent-body selection"}, commonAssumptions...),
 	},
+	"C09": {
+		Test: "TestC09", Quick: 1500, Thorough: 10000, Shards: 16,
+		QuickTimeout: 10 * time.Minute, ThoroughTimeout: 40 * time.Minute,
+		Rule: "rapid generates a schema (nesting <= 3, 60% of attributes addressable (as reference / as expression type; static + attribute-name steps), blocks addressable by static / label / attribute-value steps with every flag combination the schema validator accepts: as reference, as type of an attribute, body-as-data +- infer +- self-ref, dependent-body-as-data +- infer +- self-ref, unknown nested refs; targetable-as; any-attribute bodies; dependent bodies boosted) and 1-2 files rendered from it (typed expressions, missing / surplus labels, unknown items). Reference model on the serialisable schema + parser AST: for every addressable block / attribute of the effective schema one expected target per flag with address from the declared steps, scope, range = item extent, definition range = header / name, and the type where the model determines it (type-less; type declaration; object type of the static or selected dependent body, wrapped per block type; dynamic; literal type) plus count.index / each.key / each.value for declared extension attributes. Completeness: each expected target is collected. Soundness: each collected top-level target has the extent of an addressable declaration (or a targetable-as block, an extension attribute, a self-addressing reference) and that declaration's address; nothing is collected inside unknown attributes / blocks. Structure: nested address = parent + one step, list indexes 0..n-1 in source order, elements of a written attribute value inside the value's range. evaluations = targets compared. Non-trivial = at least two addressing classes present; distinct = SHA-1 of the case JSON.",
+		Assumptions: append([]string{"don't care: type of a block with both body-as-data and dependent-body-as-data when a dependent body is selected (DESIGN D22); types of as-expression-type attributes other than plain literals; range of aggregate list/set/map block targets; dynamic blocks"}, commonAssumptions...),
+	},
 }
